@@ -90,6 +90,18 @@ def oracle(case):
         infeasible = cname == "WeibullDistribution" and "gamma" in fixed and float(np.min(data)) <= float(fixed["gamma"])
         if not infeasible and all(float(after[p]) == float(free[p]) for p in free):
             return (dict(sig, clause="fit-not-estimated"), "non-fixed parameters were not estimated (unchanged start values)")
+        # history: the object is fitted again (to other data, then to the first data): the fixed values and their declaration survive
+        for k_, data2 in enumerate((other_data(cname, case["n"], case["seed"] + 1) if case["data"] == "own" else sample_for(cname, th, case["n"], case["seed"] + 1), data)):
+            if cname == "WeibullDistribution" and "gamma" in fixed and float(np.min(data2)) <= float(fixed["gamma"]):
+                break
+            try:
+                obj.fit(data2, method=method, weights=case.get("weights"))
+            except Exception as e:  # noqa
+                return (dict(sig, clause="refit-exception", exc=type(e).__name__), "fit number %d of the same object (fixed %r) raised %s: %s" % (k_ + 2, sorted(fixed), type(e).__name__, str(e)[:120]))
+            for p, v in fixed.items():
+                if not math.isclose(float(obj.parameters[p]), v, rel_tol=1e-12, abs_tol=1e-12) or getattr(obj, "f_" + p, v) != v:
+                    return (dict(sig, clause="refit", param=p), "after fit number %d of the same object %s = %r and f_%s = %r, the fixed value was %r"
+                            % (k_ + 2, p, float(obj.parameters[p]), p, getattr(obj, "f_" + p, None), v))
     return None
 
 
@@ -182,6 +194,13 @@ def run(ctx):
         th = D.rand_params(rng, "ExponentiatedWeibullDistribution")
         cases.append({"cls": "ExponentiatedWeibullDistribution", "theta": th, "fixed": {"delta": th["delta"]}, "fit": True, "data": "own",
                       "n": 300, "seed": rng.randrange(10 ** 6), "method": "wlsq" if w else "lsq", "weights": w})
+    # ... every other subset: either rejected (NotImplementedError: subset not supported by least squares) or the fixed values are kept
+    for sub in (("alpha",), ("beta",), ("alpha", "delta"), ("beta", "delta"), ("alpha", "beta")):
+        for w in (None, "quadratic"):
+            th = D.rand_params(rng, "ExponentiatedWeibullDistribution")
+            fx = D.rand_params(rng, "ExponentiatedWeibullDistribution")
+            cases.append({"cls": "ExponentiatedWeibullDistribution", "theta": th, "fixed": {p: fx[p] for p in sub}, "fit": True, "data": "own",
+                          "n": 300, "seed": rng.randrange(10 ** 6), "method": "wlsq" if w else "lsq", "weights": w})
     found = 0
     dist = {}
     for c in cases:
@@ -237,10 +256,18 @@ def run(ctx):
                                       "ScipyDistribution(%s) fit with fixed %r raised %s" % (Cls_.scipy_dist_name, kw, type(e).__name__), {"cls": "ScipyDistribution", "fixed": kw})
                         continue
                     ok = ok and all(math.isclose(float(d.parameters[k]), vals[k], rel_tol=1e-12, abs_tol=1e-12) for k in sub)
+                    # history: fitted a second and a third time (other data in between), the declaration f_<name> survives
+                    for data2 in (data[::-1][: len(data) // 2] * 1.1 + 0.3, data):
+                        try:
+                            d.fit(data2)
+                        except Exception as e:  # noqa
+                            ok = False
+                            break
+                        ok = ok and all(math.isclose(float(d.parameters[k]), vals[k], rel_tol=1e-12, abs_tol=1e-12) and getattr(d, "f_" + k, None) == vals[k] for k in sub)
                     ctx.count(("scipydist", Cls_.scipy_dist_name, sub), True)
                     if not ok:
                         ctx.violation({"cls": "ScipyDistribution", "clause": "fit", "fixed": "+".join(sub)},
-                                      "ScipyDistribution(%s) subclass: fixed %r not honoured after fit: %r" % (Cls_.scipy_dist_name, kw, dict(d.parameters)), {"cls": "ScipyDistribution", "fixed": kw})
+                                      "ScipyDistribution(%s) subclass: fixed %r not honoured after fit / a second and third fit of the same object: parameters %r, declarations %r" % (Cls_.scipy_dist_name, kw, dict(d.parameters), {k: getattr(d, "f_" + k, None) for k in sub}), {"cls": "ScipyDistribution", "fixed": kw})
     except Exception as e:  # noqa
         ctx.violation({"cls": "ScipyDistribution", "clause": "exception", "exc": type(e).__name__}, "ScipyDistribution subclass raised %s: %s" % (type(e).__name__, e), {"cls": "ScipyDistribution"})
     ctx.notes["input_distribution"] = dist
